@@ -144,6 +144,20 @@ def run_case(ch, mode, history, raw, cuts):
             if any(type(c) is not type(pending) for c in chunks):
                 viol = ('type', 'logfile_read got %r' % (chunks,))
                 break
+            # conservation at the transport: what the object has logged so far is the (incremental) decoding
+            # of exactly the bytes it has taken from the descriptor so far -- nothing dropped on the way
+            n_fired = len(pieces) - sum(1 for a_ in env.script if a_.kind == 'w')
+            fired = b''.join(pieces[:n_fired])
+            taken = fired[:len(fired) - len(env.hbuf.get(sp.hs_master, b''))]
+            if enc is None:
+                want_log = taken
+            else:
+                import codecs
+                want_log = codecs.getincrementaldecoder(enc)().decode(taken)
+            got_log = type(pending)().join(log.items)
+            if got_log != want_log:
+                viol = ('dropped', 'the object took %r from the descriptor but delivered %r to matching/logging' % (taken, got_log))
+                break
             # outcome kind
             if out[0] == 'ret' and sp.after is TIMEOUT:
                 okind = 'TIMEOUT'
